@@ -137,6 +137,8 @@ def _run(ctx, prop_mod, replay):
     if stats:
         cov.update(stats)
     cov.update(extra)
+    cov["sources_changed_since_reference"] = ctx.changed_sources
+    cov["effort_scale"] = ctx.scale
     cov.setdefault("evaluations", 0)
     cov.setdefault("distinct_nontrivial", 0)
     cov.setdefault("rule", "")
